@@ -362,9 +362,9 @@ fn dec_publish_body2(qos: u8, part: u8, dup: bool, retain: bool, pid: u16, sid: 
 //@ h name=dec_publish_q0_none props=C02 tier=quick cap=small to=900
 //@ h name=dec_publish_q1_none props=C02 tier=quick cap=small to=900
 //@ h name=dec_publish_q2_none props=C02 tier=quick cap=small to=900
-//@ h name=dec_publish_q1_ints props=C02 tier=quick cap=small to=900
-//@ h name=dec_publish_q2_ints_sid2 props=C02 tier=quick cap=small to=900
-//@ h name=dec_publish_q0_ints_sid4 props=C02 tier=quick cap=small to=900
+//@ h name=dec_publish_q1_ints props=C02 tier=thorough cap=small to=1500 mem=24
+//@ h name=dec_publish_q2_ints_sid2 props=C02 tier=thorough cap=small to=1500 mem=24
+//@ h name=dec_publish_q0_ints_sid4 props=C02 tier=thorough cap=small to=1500 mem=24
 //@ claim: a well-formed inbound PUBLISH is accepted and PublishData's accessors return the encoded DUP/retain/QoS/topic/payload/properties; the packet identifier kept for the acknowledgement is the encoded one; absent properties read as None
 //@ bounds: QoS concrete per harness; property sets {none; payload format indicator + message expiry + topic alias + subscription identifier}; topic (2 ASCII bytes), message expiry and payload (3 bytes) symbolic; DUP/retain/QoS, packet identifier, payload format indicator, topic alias and the subscription identifier (127, 16383, 268435455: one-, two- and four-byte encodings) concrete per harness; string/binary/user properties of an inbound PUBLISH are not covered; values symbolic (strings 1-2 ASCII bytes, payload 3 arbitrary bytes, subscription identifier 1..=268435455)
 //@ funcs: PublishRx::try_decode, PublishRxBuilder::build/validate, PublishData::from and accessors
